@@ -42,6 +42,8 @@ pub enum Ev {
     Crash { down_s: u64, lose_last: bool },
     Notify { payee: String, hash: [u8; 32], invoice: String },
     Panic { msg: String },
+    /// the wall clock was stepped back by this much during the downtime
+    ClockBack { secs: u64 },
     /// result of a direct provider call (unit worlds C15/C16)
     CallResult { call: usize, result: Value },
     /// height reading of the block watcher (C20)
@@ -260,7 +262,7 @@ struct Lifetime {
 }
 
 enum LifeEnd {
-    Crash { down_s: u64, lose_last: bool, reverse: bool },
+    Crash { down_s: u64, lose_last: bool, reverse: bool, clock_back_s: u64 },
     Done,
 }
 
@@ -273,6 +275,16 @@ impl World {
         node.height = scn.start_height;
         for p in &scn.payments {
             node.preimages.insert(p.hash(), p.preimage_bytes());
+        }
+        for pay in &scn.initial_pending {
+            // as if an earlier lifetime had recorded an attempt for this payment and then died
+            let spec = &scn.payments[*pay as usize % scn.payments.len()];
+            let h = hex::encode(spec.hash());
+            let now = std::time::SystemTime::now().duration_since(std::time::UNIX_EPOCH).map(|d| d.as_secs()).unwrap_or(0);
+            let state = json!({"Pending": {"attempt_id": "1", "attempt_time_seconds": now}}).to_string();
+            node.datastore.insert(vec!["trampoline".into(), "payments".into(), h.clone(), "state".into()], (state, 0));
+            let info = json!({"amount_msat": spec.deliver_amount(), "bolt11": build_invoice(spec, InvKind::Normal), "completed": false, "success": false}).to_string();
+            node.datastore.insert(vec!["trampoline".into(), "payments".into(), h, "attempts".into(), "1".into()], (info, 0));
         }
         for (pay, st) in &scn.initial_parts {
             let hash = scn.payments[*pay as usize % scn.payments.len()].hash();
@@ -353,7 +365,7 @@ impl World {
             let _ = std::fs::remove_file(&self.sock_path);
             match end {
                 LifeEnd::Done => break,
-                LifeEnd::Crash { down_s, lose_last, reverse } => {
+                LifeEnd::Crash { down_s, lose_last, reverse, clock_back_s } => {
                     reverse_redeliver = reverse;
                     let mut s = self.shared.lock().unwrap();
                     // pending RPCs die with their connections; running pay commands are killed
@@ -376,9 +388,15 @@ impl World {
                     self.grid_s += down_s;
                     drop(s);
                     self.age_stored_attempts();
+                    if clock_back_s > 0 {
+                        self.clock_stepped_back(clock_back_s);
+                    }
                     let mut s = self.shared.lock().unwrap();
                     s.life += 1;
                     s.push(Ev::Crash { down_s, lose_last });
+                    if clock_back_s > 0 {
+                        s.push(Ev::ClockBack { secs: clock_back_s });
+                    }
                     drop(s);
                     self.observe();
                 }
@@ -418,6 +436,29 @@ impl World {
                             v["Pending"]["attempt_time_seconds"] = json!(t.saturating_sub(delta));
                             s.node.datastore.insert(k, (v.to_string(), g));
                         }
+                    }
+                }
+            }
+        }
+    }
+
+    /// The wall clock was set back by `secs` while the node was down: every stored attempt time now lies
+    /// `secs` further in the future relative to "now" (possibly after now).
+    fn clock_stepped_back(&mut self, secs: u64) {
+        let mut s = self.shared.lock().unwrap();
+        let keys: Vec<Vec<String>> = s.node.datastore.keys().cloned().collect();
+        for k in keys {
+            if k.last().map(|x| x == "state").unwrap_or(false) {
+                let (st, g) = s.node.datastore[&k].clone();
+                if let Ok(mut v) = serde_json::from_str::<Value>(&st) {
+                    if let Some(t) = v.get("Pending").and_then(|p| p.get("attempt_time_seconds")).and_then(|t| t.as_u64()) {
+                        v["Pending"]["attempt_time_seconds"] = json!(t + secs);
+                        s.node.datastore.insert(k.clone(), (v.to_string(), g));
+                        // from now on the record counts as written `secs` later on the grid
+                        let (written, aged) = self.pending_meta.get(&k).cloned().unwrap_or((self.grid_s, 0));
+                        let _ = aged;
+                        let new_written = written + secs;
+                        self.pending_meta.insert(k, (new_written, self.grid_s.saturating_sub(new_written)));
                     }
                 }
             }
@@ -589,7 +630,7 @@ impl World {
             return;
         }
         if let Some((_, down, lose)) = self.scn.crash_at.iter().find(|c| c.0 as u32 == self.effects) {
-            self.crash_pending = Some((5 * *down as u64, *lose));
+            self.crash_pending = Some((if *down == 255 { 100_000 } else { 5 * *down as u64 }, *lose));
         }
     }
 
@@ -993,18 +1034,24 @@ impl World {
                     s.push(Ev::NodeHeight { h });
                 }
                 Step::Crash { down, lose_last, reverse } => {
-                    return LifeEnd::Crash { down_s: 5 * down as u64, lose_last, reverse };
+                    // 255 = a very long outage (more than 65535 s), 254 = the wall clock was stepped back by 50 s while down
+                    let (down_s, clock_back_s) = match down {
+                        255 => (100_000, 0),
+                        254 => (0, 50),
+                        d => (5 * d as u64, 0),
+                    };
+                    return LifeEnd::Crash { down_s, lose_last, reverse, clock_back_s };
                 }
             }
             if let Some((down_s, lose_last)) = self.crash_pending.take() {
                 self.settle().await;
-                return LifeEnd::Crash { down_s, lose_last, reverse: false };
+                return LifeEnd::Crash { down_s, lose_last, reverse: false, clock_back_s: 0 };
             }
         }
         self.shared.lock().unwrap().push(Ev::DrainStart);
         self.drain(lt).await;
         if let Some((down_s, lose_last)) = self.crash_pending.take() {
-            return LifeEnd::Crash { down_s, lose_last, reverse: false };
+            return LifeEnd::Crash { down_s, lose_last, reverse: false, clock_back_s: 0 };
         }
         if self.scn.probe {
             self.probe_same_lifetime(lt).await;
